@@ -24,6 +24,10 @@ def run(ctx):
                 "to_dag checked on the extendable ones. distinct = ground-truth DAGs / PDAGs; non-trivial iff >= 2 edges.")
     ctx.assumptions += ["CI answers are exact d-separation of the ground truth (TLC's table)", "max_cond_vars = number of nodes",
                         "a separating set is correct iff it d-separates the pair in the ground truth"]
+    # design level: the skeleton phase as coded (any edge-visiting order, any separating set found) is sound and complete
+    ctx.tlc("MC_PCSkel", f"CONSTANT Nodes = {N4}\nINIT Init\nNEXT Next\nINVARIANT Sound\nINVARIANT NeverDropsTrueEdge\n"
+            "INVARIANT Complete\nINVARIANT Terminates\n", tag="MC_PCSkel", coverage=True, timeout=7200)
+    ctx.require_actions(["VisitAny", "End"])
     r = ctx.tlc("Gen_C12", cfg(N4, "pc"), tag="Gen_pc4", coverage=True, timeout=7200)
     pcs = r.prints
     if len(pcs) != 543:
